@@ -165,6 +165,13 @@ func c06Decoders(c *Ctx, prog *load.Program, pl pointLayout) {
 			c.R.Fail("C06-1", "accept/"+dc.name, PosStr(prog, p.Pos), fmt.Sprintf("a panic (%s) is reachable when {%s}", p.Msg, GuardString(p.Guard)))
 			continue
 		}
+		// index safety: every slice bound / conversion length that constant propagation did not settle must follow from the
+		// length tests on the path (the capacity of a caller's slice is only known to be at least its length)
+		if nb, fpos, fmsg := checkBounds(r); fmsg != "" {
+			c.R.Fail("C06-1", "index-safety/"+dc.name, fpos, "a slice / conversion may be out of range: "+fmsg)
+		} else {
+			c.R.OK("C06-1", "index-safety/"+dc.name, pos, fmt.Sprintf("%d run-time bounds checks follow from the length tests", nb))
+		}
 		acc, prob := acceptFormula(r, 1)
 		if prob != "" {
 			c.R.Unknown("C06-1", "accept/"+dc.name, pos, prob)
